@@ -1,1 +1,3 @@
 import QecVerif.Props.C15.Planar
+import QecVerif.Props.C15.Toric
+import QecVerif.Props.C15.RotatedToric
